@@ -439,6 +439,56 @@ def c13(ctx):
     return 1 if replays else 0
 
 
+def c14(ctx):
+    """Pointer-carrying components under GC pressure (exploration level)."""
+    mc = [model_check(ctx, 'GcBarrier.tla', 'GcBarrier.cfg', timeout=300)]
+    build_harness(ctx)
+    n = 160 if ctx.quick else 2000
+    chunks = NCPU
+    env = dict(GOGC='1', VERIF_GCSTRESS='1')
+    jobs = [(os.path.join(PROF, 'gc.json'), ctx.seed * 100 + k, (n + chunks - 1) // chunks, 'gc-%d' % k) for k in range(chunks)]
+    gens = parallel(lambda j: gen_traces(ctx, j[0], j[1], j[2], label=j[3], env=env, crash_ok=True), jobs)
+    crashes = [g for g in gens if isinstance(g, dict)]
+    pairs = [g for g in gens if not isinstance(g, dict)]
+    xv = []
+    for c in crashes:
+        fatal = [l for l in c['crash'].splitlines() if 'fatal error' in l or 'unexpected signal' in l or l.startswith('panic:')]
+        if not fatal:
+            raise Infra('generator failed without a runtime fault:\n' + c['crash'][-2000:])
+        xv.append(('runtime fault under GC pressure: %s (profile gc, seed %d)' % (fatal[0], c['seed']),
+                   dict(mode='gc-crash', profile='gc', seed=c['seed'], n=c['n'], env=c['env'], fault=fatal[:3])))
+    results = parallel(lambda p: validate(ctx, p[0]), pairs)
+    # a corrupted pointer-carrying value shows up as a value / event / panel mismatch: all of them count for C14 here
+    for r in results:
+        for v in r['violations']:
+            if v['prop'] in ('C01', 'C03', 'C05', 'C08', 'C11'):
+                v['prop'] = 'C14'
+                v['check'] = 'pointer-payload-intact:' + v['check']
+        r['checks']['C14'] = r['checks'].get('C14', 0) + r['checks'].get('C01', 0)
+    raw = 0
+    ncheck = 0
+    for trace, sched in pairs:
+        for ln in read_lines(trace):
+            if ln['op'] == 'GCCheck' and 'gc' in ln:
+                raw = max(raw, ln['gc']['rawPtrCopies'])
+                ncheck += 1
+    cov = dict(gc_checkpoints=ncheck, raw_copies_into_pointer_columns=raw, process_env=env,
+               hazard_note='raw_copies_into_pointer_columns > 0 means untyped byte copies hit pointer-carrying columns; '
+                           'GcBarrier.tla shows that such a step loses objects under some collector schedule')
+    def rel(ln, prev):
+        if ln['op'] == 'GCCheck':
+            ln['args'] = ln.get('gc', {})
+            return True
+        return _ok(ln) and ln['op'] in STRUCT_OPS | {'Set'} and any(v > 0 for x in ln.get('obs', {}).get('ents', []) for c, v in x['vals'])
+    if raw > 0:
+        print('HAZARD property=C14 %d raw byte copies into pointer-carrying columns were observed' % raw)
+    return finish(ctx, rel, pairs, results, mc, 'exploration',
+                  ['the Go runtime schedules collections; GOGC=1 plus a goroutine forcing collections concurrently samples GC schedules, it does not enumerate them',
+                   'payload objects carry a magic pattern and a finalizer; a token counts as leaked only if unreferenced and unfinalized at two consecutive checkpoints',
+                   'GcBarrier.tla (model-checked) reduces the schedule quantifier to: no raw copy into a pointer-carrying column'],
+                  cov, xv)
+
+
 def c04(ctx):
     """Masks and filters: recorded calls on real values, judged by the set semantics."""
     mc = [model_check(ctx, 'MCMasks.tla', 'MCMasks.cfg', timeout=600)]
@@ -512,6 +562,7 @@ PROPS = {
                                    mcs=[('MCEvents.tla', 'MCEvents.cfg' if ctx.quick else 'MCEvents_thorough.cfg', dict(timeout=1800))]),
     'C16': c16,
     'C13': c13,
+    'C14': c14,
     'C15': W(rel_C15, [('resettwin', 160, 2000), ('reset', 40, 500)], pool=True),
     'C17': lambda ctx: world_check(ctx, rel_C17, [('loadtwin', 200, 2500)], mcs=mc_pool(ctx), assumptions=A_WORLD),
     'C18': lambda ctx: world_check(ctx, rel_C18, [('generic', 200, 2500)], assumptions=A_WORLD,
